@@ -1591,6 +1591,12 @@ class Frame(object):
                 if len(args) > 1:
                     h.items.extend(as_items(args[1]))
                 return h
+            if fname is not None and re.match(r'^hashlib\.(md5|sha1|sha224|sha256|sha384|sha512)$', fname) and not kwargs:
+                record(fname)               # hashlib.sha1(x) is hashlib.new('sha1', x)
+                h = Hasher(fname.split('.')[1])
+                if args:
+                    h.items.extend(as_items(args[0]))
+                return h
             if fname in ('hashes.Hash',) and args:
                 record(fname)
                 return Hasher(render(args[0]))
